@@ -93,7 +93,7 @@ Qed.
 Lemma is_hardlink_facts s : is_hardlink s = true -> hl_plain s = true /\ has_link s = true.
 Proof.
   unfold is_hardlink, has_link. intros H. apply andb_true_iff in H. destruct H as [Hr He].
-  split; [apply is_reg_plain; exact Hr|]. destruct (st_linkname s); [discriminate|reflexivity].
+  split; [exact Hr|]. destruct (st_linkname s); [discriminate|reflexivity].  (* is_node IS hl_plain *)
 Qed.
 
 Section Proj.
